@@ -616,8 +616,12 @@ class Gen:
                 return ("cond", ("rel", rng.choice(["Lt", "Gt", "Le", "Ge"]), a, b), tv, fv)
             return ("cond", self.rel(names, d - 1), self.expr(names, d - 1), self.expr(names, d - 1))
         if self.allow_mod and not self.smooth_only and rng.random() < 0.25:
-            return ("mod", self.expr(names, d - 1), rng.choice([self.poslit(), ("neg", self.poslit()),
-                                                                  ("bin", "+", ("fn", "abs", self.expr(names, d - 2)), self.poslit())]))
+            dividend = self.expr(names, d - 1)
+            if rng.random() < 0.3:
+                # a dividend that is provably non-negative (the result still has the sign of the divisor)
+                dividend = rng.choice([("fn", "abs", dividend), ("bin", "*", dividend, dividend), ("fn", "exp", ("bin", "*", ("num", "0.1"), dividend))])
+            return ("mod", dividend, rng.choice([self.poslit(), ("neg", self.poslit()), ("neg", self.poslit()),
+                                                  ("bin", "+", ("fn", "abs", self.expr(names, d - 2)), self.poslit())]))
         return self.leaf(names)
 
     def safe_den(self, names, d):
